@@ -235,7 +235,8 @@ def run(ctx):
         else:
             # outer iterates rank_pairs(self)
             osrc, och = ol.chain()
-            if not (P.strip(osrc) == ("param", 1) and och and och[0] == HR + "::rank_pairs"):
+            so = P.strip(osrc, calls=False)
+            if not (so[0] == "call" and so[1] == HR + "::rank_pairs" and P.strip(so[2][0]) == ("param", 1)):
                 problems.append("the outer loop does not iterate self.rank_pairs()")
             isrc, ich = il.chain()
             if not (P.strip(isrc) == ("field", ol.item_term, 0) and ich == [f"<{RANK_PAIR} as std::iter::IntoIterator>::into_iter"]):
